@@ -29,7 +29,7 @@ MANIFEST_ENTRY = {
     "technique": "Lean 4 proof (field identities for Lagrange interpolation of affine data, finite case analysis of wrap indexing, induction over the image list) + model-vs-implementation correspondence",
 }
 RULE = ("a case is one preprocess configuration (shape, per-image scan angles, pad fraction, knot count, pad_value kind, kde sigma), "
-        "one bilinear_kde call, or one align_translation run; distinct non-trivial = distinct (stream, shape parity/squareness, knot "
+        "one bilinear_kde call, one align_translation run, or one history of preprocess() calls with changed configuration on a single object; distinct non-trivial = distinct (stream, shape parity/squareness, knot "
         "count, angle class [axis-aligned/oblique], pad fraction, stack size, upsample factor) with H*W > 1")
 TRUSTED = ["scipy.interpolate.interp1d(kind='quadratic'/'cubic') on exactly 3/4 points evaluates the interpolating polynomial",
            "scipy.ndimage.gaussian_filter(mode='reflect') conserves the array sum (measured by the weight-sum predicate)",
@@ -296,6 +296,110 @@ def gen_align(rng, i):
     return case
 
 
+def case_rehist(ctx, case):
+    """call history on ONE DriftCorrection object: preprocess with configuration A, change scan directions /
+    pad fraction / KDE width / knot count, preprocess again (possibly several times); after the last call the
+    placement formula must hold and the object must equal a fresh one built directly with the final configuration"""
+    from qv.prng import Rng
+    from quantem.imaging.drift import DriftCorrection
+    H, W, n = case["H"], case["W"], case["n"]
+    rng = Rng(case["sub"])
+    images = [make_image(rng, H, W) for _ in range(n)]
+    steps = case["steps"]
+    for st in steps:
+        if any(0 < t < 1e-6 for t in (canvas_oracle(H, st["pad"])[1], canvas_oracle(W, st["pad"])[1])) or \
+                canvas_oracle(H, st["pad"])[0] == 0 or canvas_oracle(W, st["pad"])[0] == 0:
+            ctx.dist["rehist:rejected(np.round near-tie / empty canvas)"] += 1
+            return
+    ctx.count()
+    ctx.dist[f"rehist:steps={len(steps)}"] += 1
+    dc = DriftCorrection.from_data([im.copy() for im in images], list(steps[0]["angles"]))
+    prev = None
+    for st in steps:
+        if prev is not None:
+            changed = [k for k in ("angles", "pad", "sigma", "nk") if st[k] != prev[k]]
+            ctx.dist["rehist:changed=" + ("+".join(changed) or "nothing")] += 1
+        dc.scan_direction_degrees = list(st["angles"])
+        dc.preprocess(pad_fraction=st["pad"], pad_value=st["pad_value"], kde_sigma=st["sigma"], number_knots=st["nk"])
+        prev = st
+    last = steps[-1]
+    ctx.dist[f"rehist:final nk={last['nk']}"] += 1
+    fresh = build(images, last["angles"], last["pad"], last["pad_value"], last["sigma"], last["nk"])
+    scale = max(1.0, float(dc.shape[1]), float(dc.shape[2]))
+    if tuple(dc.shape) != tuple(fresh.shape):
+        ctx.pred_fail("rehist-shape", "canvas after a preprocess() history differs from a freshly built object", case,
+                      observed=list(dc.shape), required=list(fresh.shape))
+        return
+    for idx, deg in enumerate(last["angles"]):
+        xa, ya = dc.interpolator[idx].transform_coordinates(dc.knots[idx])
+        xa, ya = np.asarray(xa, dtype=float), np.asarray(ya, dtype=float)
+        ex, ey = placement_oracle(H, W, dc.shape[1], dc.shape[2], deg)
+        err = max(float(np.max(np.abs(xa - ex))), float(np.max(np.abs(ya - ey)))) if xa.shape == ex.shape else float("inf")
+        ctx.stat_max("rehist:placement_err", err)
+        if not err <= TOL64 * scale:
+            ctx.pred_fail(f"rehist-placement-nk{last['nk']}",
+                          "after a preprocess() history on one object, pixel (r,c) is not placed at canvas centre + rotation of its offset "
+                          "(stale state from an earlier configuration)", dict(case, image=idx), observed={"max_err_px": err},
+                          required="<= 1e-9 * canvas size")
+        fx, fy = fresh.interpolator[idx].transform_coordinates(fresh.knots[idx])
+        same = (np.array_equal(np.asarray(dc.knots[idx]), np.asarray(fresh.knots[idx])) and np.array_equal(xa, np.asarray(fx, dtype=float))
+                and np.array_equal(ya, np.asarray(fy, dtype=float)))
+        wdiff = float(np.max(np.abs(np.asarray(dc.images_warped.array[idx], dtype=float) - np.asarray(fresh.images_warped.array[idx], dtype=float))))
+        cdiff = float(np.max(np.abs(np.asarray(dc.weights_warped.array[idx], dtype=float) - np.asarray(fresh.weights_warped.array[idx], dtype=float))))
+        ctx.stat_max("rehist:warped image difference to a fresh object", max(wdiff, cdiff))
+        if not same or max(wdiff, cdiff) > 0:
+            ctx.pred_fail(f"rehist-differs-from-fresh-nk{last['nk']}",
+                          "after a preprocess() history the object differs from one built directly with the final configuration", dict(case, image=idx),
+                          observed={"knots_and_coordinates_equal": bool(same), "warped_diff": wdiff, "weights_diff": cdiff}, required="identical")
+        # knot-count independence against fresh objects with the other knot counts
+    for nk2 in (1, 2, 3, 4):
+        if nk2 == last["nk"]:
+            continue
+        other = build(images, last["angles"], last["pad"], last["pad_value"], last["sigma"], nk2)
+        for idx in range(n):
+            xa, ya = dc.interpolator[idx].transform_coordinates(dc.knots[idx])
+            ox, oy = other.interpolator[idx].transform_coordinates(other.knots[idx])
+            d = max(float(np.max(np.abs(np.asarray(xa) - np.asarray(ox)))), float(np.max(np.abs(np.asarray(ya) - np.asarray(oy)))))
+            ctx.stat_max("rehist:knot-count difference", d)
+            if not d <= TOL64 * scale:
+                ctx.pred_fail(f"rehist-knot-count-nk{last['nk']}",
+                              f"after a preprocess() history the {last['nk']}-knot coordinates differ from the {nk2}-knot ones", dict(case, image=idx),
+                              observed={"max_diff_px": d}, required="identical coordinates for 1..4 knots")
+    ctx.mark(("rehist", shape_sig(H, W), len(steps), last["nk"], tuple(sorted({angle_class(a) for a in last["angles"]}))))
+    ctx.sample(case, limit=8)
+
+
+def gen_rehist(rng, i):
+    H = rng.randint(2, 8)
+    W = H if rng.chance(0.25) else rng.randint(2, 8)
+    n = rng.randint(2, 3)
+
+    def angles():
+        return [rng.weighted([(0, 1), (90, 1), (rng.randint(0, 359), 5)]) for _ in range(n)]
+    st = {"angles": angles(), "pad": rng.choice([0.0, 0.25, 0.5]), "sigma": rng.choice([0.5, 1.0]), "nk": rng.randint(1, 4),
+          "pad_value": rng.choice(["median", "mean", 0.25])}
+    steps = [st]
+    for _ in range(rng.randint(1, 3)):
+        st = dict(st)
+        what = rng.weighted([("angles", 5), ("pad", 2), ("sigma", 2), ("nk", 3), ("pad_value", 1)])
+        if what == "angles":
+            st["angles"] = angles()
+        elif what == "pad":
+            st["pad"] = rng.choice([0.0, 0.25, 0.5, 0.75])
+        elif what == "sigma":
+            st["sigma"] = rng.choice([0.25, 0.5, 1.0, 1.5])
+        elif what == "nk":
+            st["nk"] = rng.randint(1, 4)
+        else:
+            st["pad_value"] = rng.choice(["median", "mean", "max", 0.5])
+        if rng.chance(0.5):
+            st["nk"] = [1, 1, 2, 3, 4][i % 5]
+        steps.append(st)
+    if i % 2 == 0:
+        steps[-1]["nk"] = 1     # the default single knot after a history
+    return {"stream": "rehist", "H": H, "W": W, "n": n, "steps": steps, "sub": rng.next() & 0xFFFFFFFF}
+
+
 def run_case(ctx, drv, case):
     s = case["stream"]
     if s == "coords":
@@ -304,6 +408,8 @@ def run_case(ctx, drv, case):
         case_splat(ctx, drv, case)
     elif s == "align":
         case_align(ctx, drv, case)
+    elif s == "rehist":
+        case_rehist(ctx, case)
     else:
         raise ValueError(s)
 
@@ -321,6 +427,9 @@ def run(ctx):
         rng = ctx.rng.fork(3)
         for i in range(ctx.n(60, 500)):
             run_case(ctx, drv, gen_align(rng.fork(i), i))
+        rng = ctx.rng.fork(4)
+        for i in range(ctx.n(60, 600)):
+            run_case(ctx, drv, gen_rehist(rng.fork(i), i))
     finally:
         drv.close()
 
